@@ -216,8 +216,21 @@ def _literal_encoding(ctx, rep, rid, ci, fn, body):
             inner_p = list(tree[1][1][3])
             if len(inner_p) == 1 and inner_p[0][0] == sc.BRANCH:
                 branches = [list(b) for b in inner_p[0][1][1]]
+                def hex_class(item) -> bool:
+                    """The repeated item is exactly the set of digits repr writes: 0-9 and a-f."""
+                    if len(item) != 1 or item[0][0] != sc.IN:
+                        return False
+                    chars = set()
+                    for kind, val in item[0][1]:
+                        if kind == sc.RANGE:
+                            chars |= set(range(val[0], val[1] + 1))
+                        elif kind == sc.LITERAL:
+                            chars.add(val)
+                        else:
+                            return False
+                    return chars == set(map(ord, "0123456789abcdef"))
                 hexb = [b for b in branches if len(b) == 2 and b[0] == (sc.LITERAL, ord("x")) and b[1][0] == sc.MAX_REPEAT
-                        and b[1][1][0] == 2 and b[1][1][1] == 2]
+                        and b[1][1][0] == 2 and b[1][1][1] == 2 and hex_class(list(b[1][1][2]))]
                 anyb = [b for b in branches if len(b) == 1 and b[0][0] == sc.ANY]
                 tok_ok = bool(hexb) and bool(anyb) and branches.index(hexb[0]) < branches.index(anyb[0])
     rep.add(rid, "docstring literal: the rewrite consumes every backslash escape in turn (\\\\x41 is an escaped backslash plus text, not a hex escape)",
